@@ -1,7 +1,7 @@
 (* C02 — CometBFT's validator set always equals the chain's own bonded set and powers. *)
 From stdpp Require Import gmap.
 Require Import Model.Base Model.Validate Model.State Model.Staking Model.Slashing Model.Poa Model.App.
-Require Import proofs.Inv proofs.InvIdx proofs.InvPres proofs.InvMsgs proofs.InvHistory proofs.InvComet proofs.InvElig proofs.InvTop.
+Require Import proofs.Inv proofs.InvIdx proofs.InvPres proofs.InvMsgs proofs.InvHistory proofs.InvComet proofs.InvElig proofs.InvTop proofs.InvAbsent.
 
 (* after every block of every history that has not halted — any number of blocks, any in-block order of CreateValidator,
    SetPower safe/unsafe, RemoveValidator, RemovePending, UpdateStakingParams, unjail, any downtime pattern, empty blocks,
@@ -126,3 +126,18 @@ Example C02_genesis_witness :
   map_to_list (last_pow (stk (w_chain w))) ≡ₚ [(1, 33); (2, 20)] /\
   bonded_pool (bk (w_chain w)) = 53000000 /\ notbonded_pool (bk (w_chain w)) = 2000000.
 Proof. vm_compute. repeat split; reflexivity. Qed.
+
+(* who is absent: the consensus key of a pending application has no seat in CometBFT's set, nor has the key of a validator
+   the chain reports as unbonding or unbonded (removed, displaced, waiting) or as jailed — in every reachable state *)
+Theorem C02_pending_key_has_no_seat : forall g bs p,
+  wf_genesis g ->
+  let w := run_world (init_world g) bs in
+  w_halted w = None -> In p (pending (poa (w_chain w))) -> c_next (w_comet w) !! p_cons p = None.
+Proof. exact pending_key_has_no_seat. Qed.
+
+Theorem C02_not_bonded_or_jailed_has_no_seat : forall g bs id v,
+  wf_genesis g ->
+  let w := run_world (init_world g) bs in
+  w_halted w = None -> vals (stk (w_chain w)) !! id = Some v -> (v_status v <> Bonded \/ v_jailed v = true) ->
+  c_next (w_comet w) !! v_cons v = None.
+Proof. exact not_bonded_or_jailed_has_no_seat. Qed.
